@@ -58,6 +58,32 @@ NullWhy(files, s) ==
          IF bad = {} THEN ""
          ELSE "fromJson of " \o s.dart \o " reads the key " \o c.fromKeys[CHOOSE i \in bad : TRUE] \o " with a routine that does not accept the null Go writes for a nil slice or map"
 
+(* ---- map keys: JSON object keys are strings; Go writes integer keys in decimal and enum keys as their value.
+   The routine reading a map field must turn the key string back: parse integers, hand enum values to the
+   enum's own routine, take strings as they are *)
+RECURSIVE KeyConvOf(_, _, _)
+KeyConvOf(files, name, depth) ==
+    IF ~\E h \in AllHelpers(files) : h.name = name THEN ""
+    ELSE LET h == CHOOSE x \in AllHelpers(files) : x.name = name IN
+         IF h.keyconv # "" THEN h.keyconv
+         ELSE IF depth < 4 /\ h.delegates # "" THEN KeyConvOf(files, h.delegates, depth + 1) ELSE ""
+RECURSIVE MapKeyFields(_)
+MapKeyFields(fs) ==    \* <<key, keywire>> of the included map fields
+    IF fs = <<>> THEN <<>>
+    ELSE LET f == Head(fs) rest == MapKeyFields(Tail(fs)) IN
+         IF EjSkipped(f) \/ f.gomacro = "ignore" THEN rest
+         ELSE IF f.emb = "struct" /\ ~(f.hasjson /\ f.tagname # "") THEN MapKeyFields(f.sub) \o rest
+         ELSE IF f.keywire # "" THEN << <<EjName(f), f.keywire>> >> \o rest ELSE rest
+WantedConv(w) == CASE w = "int" -> {"parse"} [] w = "intenum" -> {"enumparse"} [] w = "strenum" -> {"enumstr"} [] OTHER -> {"cast", "enumstr"}
+KeyWhy(files, s) ==
+    IF ~HasClass(files, s.dart) THEN ""
+    ELSE LET c == ClassOf(files, s.dart)
+             mk == MapKeyFields(s.fields)
+             bad == {i \in 1..Len(c.fromKeys) : i <= Len(c.fromCalls) /\ c.fromCalls[i] # ""
+                        /\ \E m \in Range(mk) : m[1] = c.fromKeys[i] /\ KeyConvOf(files, c.fromCalls[i], 0) \notin (WantedConv(m[2]) \cup {""})} IN
+         IF bad = {} THEN ""
+         ELSE "fromJson of " \o s.dart \o " reads the map under key " \o c.fromKeys[CHOOSE i \in bad : TRUE] \o " without turning its JSON keys back into the Go key values"
+
 (* ---- unions: dispatch on exactly the Go member names *)
 UnionWhy(files, u) ==
     IF ~HasUnion(files, u.dart) THEN "no Dart abstract class for the union " \o u.dart
